@@ -1,7 +1,9 @@
 #!/usr/bin/env python3
 """usage: c10_cmp.py got.txt expected.txt  -> exit 0 iff the token stream of got.txt (line markers dropped, re-lexed)
 equals the white-space separated tokens of expected.txt (`#pragma` lines are dropped as well: gcc passes them through,
-chibicc does not; they are not text selected by the property).  Used by the C10 replay scripts."""
+chibicc does not; they are not text selected by the property).  An expected token written `[opt]T` may be present or
+absent (part D2: a file whose second inclusion under #pragma once is implementation-defined).
+Used by the C10 replay scripts."""
 import re
 import sys
 
@@ -17,4 +19,12 @@ def lex(s):
 if __name__ == "__main__":
     got = lex(open(sys.argv[1], errors="replace").read())
     exp = open(sys.argv[2]).read().split()
-    sys.exit(0 if got == exp else 1)
+    OPT = "[opt]"
+    # reach[j] = the first i tokens of exp can produce the first j tokens of got
+    reach = {0}
+    for e in exp:
+        if e.startswith(OPT):
+            reach = reach | {j + 1 for j in reach if j < len(got) and got[j] == e[len(OPT):]}
+        else:
+            reach = {j + 1 for j in reach if j < len(got) and got[j] == e}
+    sys.exit(0 if len(got) in reach else 1)
